@@ -275,6 +275,8 @@ class FnAnalysis:
                 pass
         for b in v.get("bindings", []) or []:
             self.env[b["d"]] = set(paths) if paths else {TMP}
+            if b.get("hv") is not None:
+                self.env[b["hv"]["d"]] = set(paths) if paths else {TMP}
 
     def find_lambda(self, e):
         e = strip(e)
@@ -343,6 +345,8 @@ class FnAnalysis:
                 self.env[v["d"]] = elem
             for b in v.get("bindings", []) or []:
                 self.env[b["d"]] = elem
+                if b.get("hv") is not None:
+                    self.env[b["hv"]["d"]] = elem
             # the loop variable keeps its identity as an index class
             self.stmt(s.get("body"))
         elif k == "return":
